@@ -192,3 +192,23 @@ M2('c20-preflight-skips-unlisted-method-after-withdraw-test', 'C20', 'R4', [
                 return
 """},
 ])
+
+# ------------------------------------------------------------------ wave 8
+CONSTS = 'falcon/constants.py'
+AREQ = 'falcon/asgi/request.py'
+# R1 sub-clause (seed s8-c20-1): a header the CORS decision reads becomes last-wins on ASGI
+M('c20-origin-becomes-singleton-header', 'C20', 'R1', CONSTS, "        'max-forwards',\n        'referer',\n", "        'max-forwards',\n        'origin',\n        'referer',\n")
+M('c20-request-method-header-becomes-singleton', 'C20', 'R1', CONSTS, "        'max-forwards',\n        'referer',\n",
+  "        'max-forwards',\n        'access-control-request-method',\n        'referer',\n")
+# the ASGI request adds its own last-wins names next to the shared constant
+M('c20-asgi-request-last-wins-for-origin', 'C20', 'R1', AREQ,
+  "_SINGLETON_HEADERS_BYTESTR = frozenset([h.encode() for h in SINGLETON_HEADERS])\n",
+  "_SINGLETON_HEADERS_BYTESTR = frozenset([h.encode() for h in SINGLETON_HEADERS]) | frozenset([b'origin'])\n")
+# R4 (seed s8-c20-2): something else stands in for the success flag
+_PREFLIGHT = "        if (\n            req_succeeded\n            and req.method == 'OPTIONS'\n"
+M('c20-preflight-on-ok-status-instead-of-success-flag', 'C20', 'R4', MW, _PREFLIGHT,
+  "        if (\n            200 <= resp.status_code <= 299\n            and req.method == 'OPTIONS'\n")
+M('c20-preflight-on-status-below-400', 'C20', 'R4', MW, _PREFLIGHT,
+  "        if (\n            resp.status_code < 400\n            and req.method == 'OPTIONS'\n")
+M('c20-preflight-success-flag-or-ok-status', 'C20', 'R4', MW, _PREFLIGHT,
+  "        if (\n            (req_succeeded or 200 <= resp.status_code <= 299)\n            and req.method == 'OPTIONS'\n")
